@@ -14,6 +14,7 @@ the property's guard); for `==V.*` on *every* probe.  For final-release literals
 import PoetryVerif.Proofs.VRangeSpec
 import PoetryVerif.Proofs.VRangeSpecFinal
 import PoetryVerif.Proofs.VRangeSpecSet
+import PoetryVerif.Proofs.VRangeFinalSet
 import PoetryVerif.Proofs.VRangeDiff
 
 set_option linter.unusedSimpArgs false
@@ -480,6 +481,62 @@ theorem counterexample_sibling_of_another_literal :
   · exact absurd ((vk_eq_iff _ _).1 h) (by decide)
   · exact h (by decide)
 
+/-- **a comma-joined specifier set of any length whose literals are all final releases, on EVERY candidate** —
+the first disjunct of the guard (no `!=`, `!=V.*`), with nothing asked of the candidate: pre-releases, post-releases,
+dev-releases and local builds of the literals included, any number of clauses on the same release
+(`>1.0, <=1.0` — empty; `>=1.0, ==1.0.*, ~=1.0.0`).  Over final versions the two halves of `allows` have an explicit
+reading on every probe (`VRange.allowsLo_final`: an exclusive lower end excludes its whole release;
+`VRange.allowsHi_final`: an inclusive upper end admits its local builds) and the three bound comparisons of
+`intersect` are sound for it (`VRange.cmpOK_final`); so the left-to-right `intersect` is defined, stays over final
+versions, and its membership equals the reference conjunction. -/
+theorem final_set_membership_eq_ref (first : Clause) (rest : List Clause)
+    (hok : ∀ c ∈ first :: rest, ClauseOk c.op c.lit ∧ c.lit.isFinal = true ∧ c.op ≠ .ne ∧ c.op ≠ .neStar)
+    (v : Version) (hv : v.wf = true) :
+    ∃ r, setVC (first :: rest) = .ok r ∧ r.allows v = .ok (contains (first :: rest) v) := by
+  let mem : Clause → RC := fun d => clauseMember d.op d.lit
+  have spec : ∀ c ∈ first :: rest, clauseVC c.op c.lit = .ok (.single (mem c)) ∧ (mem c).FClass := fun c hc =>
+    clauseMember_final c.op c.lit ⟨(hok c hc).1.1, (hok c hc).1.2.1, (hok c hc).1.2.2, fun _ => (hok c hc).2.1⟩
+      ⟨(hok c hc).2.2.1, (hok c hc).2.2.2⟩ (hok c hc).2.1
+  have sem : ∀ d ∈ first :: rest, (mem d).allows v = d.contains v := by
+    intro d hd
+    obtain ⟨y, hy, ay⟩ := final_literal_membership_eq_ref d.op d.lit v (hok d hd).1.1 (hok d hd).2.1 (hok d hd).2.2.1
+      (hok d hd).1.2.2 hv
+    rw [(spec d hd).1] at hy; cases hy
+    simpa [VC.allows] using ay
+  have hf := spec first (by simp)
+  obtain ⟨r, hr1, hr2, hr3⟩ := foldIntersect_final v hv (rest.map mem) (.single (mem first)) ((mem first).allows v)
+    trivial (by intro c hc; simp [VC.flatten] at hc; subst hc; exact hf.2) (by simp [VC.allowsPlain, VC.flatten])
+    (by intro n hn
+        obtain ⟨c, hc, rfl⟩ := List.mem_map.1 hn
+        exact (spec c (by simp [hc])).2)
+  refine ⟨r, ?_, ?_⟩
+  · have e1 : setVC (first :: rest) =
+        rest.foldlM (fun acc d => do VC.intersect acc (← clauseVC d.op d.lit)) (.single (mem first)) := by
+      simp only [setVC, hf.1]; rfl
+    rw [e1, foldClauses_members rest _ (fun d hd => (spec d (by simp [hd])).1)]
+    exact hr1
+  · rw [VC.allows_of_notUnion r v hr2, hr3, sem first (by simp)]
+    congr 1
+    simp only [contains, List.all_cons, List.all_map]
+    congr 1
+    apply bool_eq_of_iff
+    simp only [List.all_eq_true, Function.comp]
+    constructor
+    · intro h c hc; rw [← sem c (by simp [hc])]; exact h c hc
+    · intro h c hc; rw [sem c (by simp [hc])]; exact h c hc
+
+/-- candidates the other set theorems exclude: `>1.0, <=1.0.0, ==1.0.*` at `1.0.post1` and at `1.0+local`, siblings
+of every literal — answered as the reference does (rejected) -/
+example : let s : List Clause := [⟨.gt, mk' 0 [1, 0] none none none none⟩, ⟨.le, mk' 0 [1, 0, 0] none none none none⟩,
+      ⟨.eqStar, mk' 0 [1, 0] none none none none⟩]
+    (∀ c ∈ s, c.lit.isFinal = true) ∧ contains s (mk' 0 [1, 0] none (some ⟨.post, 1⟩) none none) = false ∧
+    contains s (mk' 0 [1, 0] none none none (some ["local"])) = false := by
+  intro s
+  refine ⟨?_, by decide, by decide⟩
+  intro c hc
+  simp only [s, List.mem_cons, List.mem_nil_iff, or_false] at hc
+  rcases hc with rfl | rfl | rfl <;> decide
+
 /-- `~=1.2, !=1.3.*, !=1.2.5, >=1.2` -/
 private def exSet : List Clause :=
   [⟨.compat, mk' 0 [1, 2] none none none none⟩, ⟨.neStar, mk' 0 [1, 3] none none none none⟩,
@@ -496,16 +553,30 @@ example : (∀ c ∈ exSet, ClauseOk c.op c.lit ∧ ((c.op = .eqStar ∨ c.op = 
   rcases hc with rfl | rfl | rfl | rfl <;>
     exact ⟨⟨by decide, fun _ _ => by decide, fun _ => by decide⟩, fun _ => by decide⟩
 
+/-- **the guard, for sets without `!=` / `!=V.*`, with no residual hypothesis**: every literal is a final release
+(any candidate), or the candidate is regular for every literal (equal to it or of another release).  The complement
+is the class `sibling-of-another-literal` (`counterexample_sibling_of_another_literal`). -/
+theorem guarded_range_set_membership_eq_ref (first : Clause) (rest : List Clause)
+    (hok : ∀ c ∈ first :: rest, ClauseOk c.op c.lit ∧ (c.op = .eqStar → c.lit.isFinal = true) ∧
+      c.op ≠ .ne ∧ c.op ≠ .neStar)
+    (v : Version) (hv : v.wf = true)
+    (hg : (∀ c ∈ first :: rest, c.lit.isFinal = true) ∨ (∀ c ∈ first :: rest, Reg1 v c.lit)) :
+    ∃ r, setVC (first :: rest) = .ok r ∧ r.allows v = .ok (contains (first :: rest) v) := by
+  rcases hg with hf | hr
+  · exact final_set_membership_eq_ref first rest
+      (fun c hc => ⟨(hok c hc).1, hf c hc, (hok c hc).2.2.1, (hok c hc).2.2.2⟩) v hv
+  · exact range_set_membership_eq_ref first rest hok v hv hr
+
 /-- C04 at full strength: membership equals the reference for every specifier set and candidate in the
-guard.  Proved: single clauses on regular candidates (`clause_membership_eq_ref`), on every candidate for final
-literals (`final_literal_membership_eq_ref`, wildcards included), sets of any length of ordered comparisons /
-`==` on candidates regular for every literal (`set_membership_eq_ref`), and sets of any length with any
-operators in the regular setting (`regular_set_membership_eq_ref`: range ends mutually regular, without local
-label; candidate regular for them), and sets of single-range clauses without any regularity between the literals
-(`range_set_membership_eq_ref`).  Not proved: sets with a `!=` / `!=V.*` clause whose range ends share a release
-without being equal (`>=1.2, !=1.2.*`: `1.2` and `1.2.dev0`), and sets on candidates of a literal's own release.  Known to need two
-more hypotheses (check stream, known findings "sibling-of-another-literal", "local-min-intersect"): regularity
-per literal, and no `==V` clause meeting a bound that is a local build of `V`. -/
+guard.  Proved with no residual hypothesis: sets of any length without `!=` / `!=V.*` (ordered comparisons, `==`,
+`~=`, `==V.*`) — all literals final on EVERY candidate (`final_set_membership_eq_ref`), or any literals on
+candidates regular for each literal (`range_set_membership_eq_ref`); together
+`guarded_range_set_membership_eq_ref`.  Proved under `RegB` (range ends mutually regular, no local label):
+sets with `!=` / `!=V.*` (`regular_set_membership_eq_ref`).  Single clauses: `clause_membership_eq_ref`,
+`final_literal_membership_eq_ref`, wildcards.  False as stated (the third disjunct of `InDomain` admits a candidate
+equal to one literal and sibling of another): `counterexample_sibling_of_another_literal`; the check's known classes
+"sibling-of-another-literal", "local-min-intersect".  Not proved: sets with a `!=` / `!=V.*` clause whose range ends
+share a release without being equal (`>=1.2, !=1.2.*`), on candidates regular for the literals. -/
 def membership_eq_ref_full_statement : Prop :=
   ∀ (s : List Clause) (v : Version), (∀ c ∈ s, ClauseOk c.op c.lit) → v.wf = true → InDomain s v →
     ∃ c, setVC s = .ok c ∧ c.allows v = .ok (contains s v)
